@@ -211,6 +211,16 @@ def enum_valid(program, prims, families, counts):
 POST = {}
 
 
+class Raised:
+    """solve()/build_solution() raised on an admitted leaf (falsy)."""
+
+    def __init__(self, exc):
+        self.exc = f"{type(exc).__name__}: {exc}"[:200]
+
+    def __bool__(self):
+        return False
+
+
 def solve_under_pins(solver, prims, leaf):
     """The reported solution of one admitted leaf: the real solve()/build_solution() under the leaf's pins."""
     zs = solver._solver
@@ -218,9 +228,17 @@ def solve_under_pins(solver, prims, leaf):
     try:
         zs.add(*ex.pins_of(prims, leaf))
         with boot.quiet():
-            return solver.solve()
+            try:
+                return solver.solve()
+            except Exception as e:  # reported by the callers as a violation of "a solution is returned for an admitted schedule"
+                return Raised(e)
     finally:
         zs.pop()
+
+
+def raised_violation(program, leaf, sol):
+    return ({"dir": "report", "what": "solve-raised-on-admitted-schedule", "exc": sol.exc.split(":")[0]},
+            {"program": program, "leaf": _leaf_list(leaf), "expect": "accept", "solver": {}, "what": "solve-raised-on-admitted-schedule", "detail": sol.exc})
 
 
 def analyze(job):
@@ -313,10 +331,17 @@ def analyze(job):
                 # the verdict of the real solve() must agree with the explored set
                 import processscheduler as ps
                 b2 = dsl.build(program)
+                raised = None
                 with boot.quiet(capture=True) as buf:
                     kw2 = dict(solver_kw)
                     kw2.setdefault("max_time", 60)
-                    sol = ps.SchedulingSolver(problem=b2.pb, **kw2).solve()
+                    try:
+                        sol = ps.SchedulingSolver(problem=b2.pb, **kw2).solve()
+                    except Exception as e:
+                        sol, raised = None, f"{type(e).__name__}: {e}"[:200]
+                if raised and stats.admitted > 0:
+                    sig = {"dir": "verdict", "what": "solve-raised-on-feasible-problem", "exc": raised.split(":")[0]}
+                    seen_sig[json.dumps(sig, sort_keys=True)] = [1, {"program": program, "leaf": [], "solver": solver_kw, "expect": "accept", "detail": raised}, sig]
                 said_unsat = (not sol) and "no solution exists" in buf.getvalue()
                 res["verdict_checked"] = 1
                 if said_unsat and kcounts["valid"] > 0 and lost < kcounts["valid"]:
